@@ -112,11 +112,23 @@ CLAIMS = {
         note=LEAN_NOTE + "Arc/Drop semantics as modelled by the ownership graph; listeners/OS observed by the net engine where built",
         technique="Lean 4 proof (inductive Freed over the ownership graph; cycle-leak negation) + exhaustive history-prefix correspondence on pipe Drop flags",
     ),
+    "C18": dict(
+        engine="net",
+        text="Lean 4 on the bind-table model (Model/Net.lean; OS outcomes are inputs with their assumptions spelled out): a successful bind returns a NEW endpoint id and adds exactly it, other sockets untouched; a failed bind (address in use, malformed) returns the state unchanged; unbind of a bound endpoint removes exactly it and leaves connections and other sockets untouched; unbind of anything else = NoSuchBind with the state unchanged; a fresh connect is accepted iff the endpoint is in the bind set of a live socket (listener running <-> bound). PARTIAL: OS, scheduler, timing observed not modelled. Tie: real multi-thread runtime, real TCP v4/v6 + IPC, raw clients; directed cases per type x transport and seeded op sequences <= 12 over bind/dup/rebind/malformed/unbind/unknown/connect-in/message-on-old-connection; the model predicts the outcome class of every op; python reference BindSet oracle (binds() after every op, connect right after unbind returns).",
+        note=LEAN_NOTE + "OS hands out no listening address twice; refusal immediate on loopback/unix sockets; transports unavailable in the sandbox are skipped and recorded",
+        technique="Lean 4 proof (refinement of the bind table to a set) + real-runtime outcome-class correspondence",
+    ),
     "C19": dict(
         engine="endpoint",
         text="Lean 4 theorems over the endpoint parser model (the two regexes' semantics spelled out over List Char): parse s = ok e <-> the declarative grammar of the property (strict, both directions), parse (display e) = ok e for every parsed e (round trip, IPv6 bracketed), the only slicing operation is in range and on char boundaries (total), IP literals become addresses. std::net enters through an explicit structure of laws (hypotheses of the round-trip theorem). Tie: real str::parse::<Endpoint>() + Display + re-parse vs the model, EXHAUSTIVELY over a 17-character alphabet (incl. newline, non-ASCII digit, upper case) to length 4/5 after 5 prefixes, grammar-based and mutated endpoints; the Lean models of std::net parse/print are compared with the real std on sampled addresses and near-valid IPv6/IPv4 texts.",
         note=LEAN_NOTE + "regex crate semantics of the two patterns; Rust std::net (IPv4/IPv6 text laws are hypotheses, sampled)",
         technique="Lean 4 proof (strictness iff, round trip modulo std::net laws) + exhaustive small-alphabet differential correspondence",
+    ),
+    "C20": dict(
+        engine="net",
+        text="Lean 4 on the per-connection handshake-task model (Model/Net.lean): a step of connection c's task changes no other connection, no bind table, no socket's liveness (locality); what it concludes is a function of c's OWN bytes and the local socket type only (non-interference: a peer supplying a valid greeting + compatible READY is registered by its own step whatever the other connections do); accepting depends on the bind tables only; a failing handshake appends exactly one AcceptFailed and closes the connection. PARTIAL: that the code really runs one task per connection is OBSERVED. Tie: real runtime, TCP + IPC, every bound socket type: raw clients that stop / close / send garbage at byte offset k of greeting+READY (boundary grid quick, every offset thorough), 1..3 at once, with good clients before (established traffic continues), during and after; monitor event multiset compared; model predicts every outcome class.",
+        note=LEAN_NOTE + "tokio task scheduling and the kernel accept queue observed, not modelled; Disconnected events not compared",
+        technique="Lean 4 proof (locality + non-interference of per-connection tasks) + real-runtime stall/garbage-offset correspondence",
     ),
 }
 
@@ -159,6 +171,7 @@ def main():
             {"name": "codec", "path": "harness/src/codec.rs + lean/Driver/Codec.lean", "serves_properties": ["C01", "C02", "C03"], "kind_free_text": "real ZmqCodec vs the Lean decoder/encoder model over a line protocol; hostile mode with counting allocator and small-stack thread"},
             {"name": "fq", "path": "harness/src/fq.rs + lean/Driver/Fq.lean", "serves_properties": ["C05", "C06"], "kind_free_text": "real FairQueue (via __verif::FairQueueProbe) over scripted streams with window actions and a counting receiver waker vs the Lean micro-step model, exact schedule replay"},
             {"name": "world", "path": "harness/src/world.rs + harness/src/pipe.rs + lean/Driver/World.lean (Model/World.lean)", "serves_properties": ["C04", "C07", "C08", "C09", "C10", "C11", "C12", "C13", "C14", "C15", "C16", "C17"], "kind_free_text": "any number of REAL sockets + scripted in-memory pipes attached through the real handshake + user futures polled one poll at a time; the Lean World model replays the same schedule and must predict every line"},
+            {"name": "net", "path": "harness/src/net.rs + lean/Driver/Net.lean (Model/Net.lean)", "serves_properties": ["C17", "C18", "C20"], "kind_free_text": "real multi-thread tokio runtime, real TCP v4/v6 + IPC listeners, raw ZMTP peers; outcome classes awaited by polling up to a deadline; the Lean model predicts the class of every op"},
             {"name": "endpoint", "path": "harness/src/endpoint.rs + lean/Driver/Endpoint.lean", "serves_properties": ["C19"], "kind_free_text": "real Endpoint::from_str/Display and std::net vs the Lean endpoint and IP text models"},
             {"name": "spec", "path": "lean/Driver/Spec.lean", "serves_properties": ["C01"], "kind_free_text": "Lean Spec predicates (strict RFC-23 grammar) evaluated on bytes the implementation produced"},
         ],
